@@ -187,6 +187,20 @@ CHECKS['C05'] = dict(
    technique='contract-based deductive verification of option resolution + exhaustive-domain type laws + bounded runtime contracts',
    design_ref='DESIGN.md 5 C05')
 
+CHECKS['C08'] = dict(
+   category='proof',
+   text='The generic discovery / verification layer is the same real code as C01/C02/C07 and is proved here against the same '
+        'contracts: discovery returns exact statistics, each verifier reports satisfied iff the documented meaning holds - so a row '
+        'beyond a discovered bound makes that constraint fail (only-if direction) - and never raises on well-formed views; the '
+        'database instance of types_compatible is proved to be exact-type equality. The SQL calculator (string-built SQL over SQLite) '
+        'enters through the assumed A-calc contracts and is decided by the bounded layer (labelled): generated tables of every column '
+        'type incl. quotes, backslashes, unicode, empty strings, all-null and empty tables, rex off/on, discovered, verified and '
+        're-verified after every single-row perturbation.',
+   note='Trusted: A-calc for the SQL calculator (audited on SQLite per run), A-card, A-pigeonhole, FP-REAL, pyvc encoding, z3/cvc5. '
+        'SQL text construction itself is not under a deductive contract.',
+   technique='contract-based deductive verification of the shared discovery/verification layer + bounded runtime contracts on SQLite',
+   design_ref='DESIGN.md 5 C08')
+
 NA_REASON = 'check under construction in this session (see DESIGN.md 8, build order)'
 
 def main():
